@@ -935,6 +935,7 @@ func ruleEffect6(c *Ctx) {
 
 func ruleEffect5(c *Ctx) {
 	c.R.Rule("EFFECT-5", 3, "a fresh VM per invocation and an immutable program: the closure returned by vm.Compile obtains its VM from NewVM() inside the closure and shares nothing else mutable; the functions that write bytecode.code / cp.data are not reachable from (*VM).Interp")
+	c.reentrantClosures()
 	fd := c.FuncDecl("vm", "Compile")
 	if fd == nil {
 		c.R.Anchor("vm.Compile")
@@ -1322,4 +1323,88 @@ func ruleEngine(c *Ctx) {
 			}
 		}
 	}
+}
+
+
+// reentrantClosures (clause of EFFECT-5): compiled code is re-entrant. A function literal of a back end that runs at
+// evaluation time — it takes the run-time environment (`func(*val.Env) *val.Val`), or is a thunk / function value body
+// (`func(...*val.Val) *val.Val`) — never assigns a local variable declared outside itself: such a variable belongs to
+// the compile-time activation that built the literal and is shared by every evaluation of the compiled expression, so a
+// write makes one evaluation visible to another (the environment of a lazy call, a result cache, a scratch cursor).
+// Element stores into captured slices are EFFECT-6's; package-level variables EFFECT-2's.
+func (c *Ctx) reentrantClosures() {
+	examined := 0
+	for _, sp := range []string{"closure", "interp", "vm", "ext/sql", "ext"} {
+		pk := c.Mod[sp]
+		if pk == nil {
+			continue
+		}
+		for _, f := range pk.Syntax {
+			for _, d := range f.Decls {
+				fd, ok := d.(*ast.FuncDecl)
+				if !ok || fd.Body == nil {
+					continue
+				}
+				owner := fnName(sp, fd)
+				ast.Inspect(fd.Body, func(x ast.Node) bool {
+					lit, ok := x.(*ast.FuncLit)
+					if !ok {
+						return true
+					}
+					sig, ok := c.typeOf(lit).(*types.Signature)
+					if !ok || sig.Results().Len() != 1 || !strings.HasSuffix(typeStr(sig.Results().At(0).Type()), "val.Val") || sig.Params().Len() != 1 {
+						return true
+					}
+					pt := typeStr(sig.Params().At(0).Type())
+					if !(strings.HasSuffix(pt, "val.Env") || (sig.Variadic() && strings.HasSuffix(pt, "val.Val"))) {
+						return true
+					}
+					examined++
+					ast.Inspect(lit.Body, func(y ast.Node) bool {
+						var targets []ast.Expr
+						switch st := y.(type) {
+						case *ast.AssignStmt:
+							if st.Tok != token.DEFINE {
+								targets = st.Lhs
+							}
+						case *ast.IncDecStmt:
+							targets = []ast.Expr{st.X}
+						}
+						for _, t := range targets {
+							id, isID := unparen(t).(*ast.Ident)
+							if !isID {
+								continue
+							}
+							v, isVar := c.objOf(id).(*types.Var)
+							if !isVar || v.Pkg() == nil || v.Parent() == v.Pkg().Scope() || v.IsField() {
+								continue
+							}
+							if v.Pos() >= lit.Pos() && v.Pos() <= lit.End() {
+								continue // the literal's own local (or that of a literal nested in it)
+							}
+							// named results / parameters of an enclosing *run-time* literal are per-evaluation too
+							perEval := false
+							for _, a := range ancestors(fd, lit) {
+								if outer, isLit := a.(*ast.FuncLit); isLit && outer != lit && v.Pos() >= outer.Pos() && v.Pos() <= outer.End() {
+									if osig, ok := c.typeOf(outer).(*types.Signature); ok && osig.Params().Len() == 1 {
+										opt := typeStr(osig.Params().At(0).Type())
+										if strings.HasSuffix(opt, "val.Env") || (osig.Variadic() && strings.HasSuffix(opt, "val.Val")) {
+											perEval = true
+										}
+									}
+								}
+							}
+							if perEval {
+								continue
+							}
+							c.R.Bad(owner, "run-time closure assigns captured variable "+v.Name(), y.Pos(), "the variable belongs to the compile-time activation and is shared by every evaluation of the compiled expression: evaluations that overlap (goroutines, or a thunk forced after a nested evaluation started) see each other's value")
+						}
+						return true
+					})
+					return true
+				})
+			}
+		}
+	}
+	c.R.Check(examined >= 20, "closure/interp/vm/ext", "run-time closures examined for writes to captured variables", token.NoPos, fmt.Sprintf("%d evaluation-time function literals, none assigns a variable of its compile-time activation", examined), fmt.Sprintf("only %d evaluation-time literals found: the clause would pass vacuously", examined))
 }
